@@ -4,7 +4,7 @@
    operation, for every layout, dictionary and conversion oracle. *)
 From Coq Require Import NArith List Bool Arith Lia.
 From LC Require Import Base.Lib Gen.Editor_gen Model.Composition Model.Conversion Model.Editor Model.EditorRun
-     Proofs.CompositionProofs.
+     Proofs.CompositionProofs Proofs.Paging.
 Import ListNotations.
 Open Scope nat_scope.
 
@@ -22,13 +22,54 @@ Hypothesis ok_remove : forall d k t, dict_ok d -> dict_ok (do_remove dops d k t)
 Notation shared' := (shared D SY).
 Notation editor' := (editor D SY).
 
-Definition sel_inv (sel : selector) : Prop :=
-  match sel with SelPhrase p => ps_begin p < ps_end p | _ => True end.
-Definition state_inv (st : estate) : Prop :=
-  match st with Selecting _ _ sel => sel_inv sel | _ => True end.
+(* the layout's alternative syllables do not depend on the keys typed so far *)
+Hypothesis alt_stable : forall x c, so_alt sops (so_clear sops x) c = so_alt sops x c.
+
+(* a phrase selector's range is non-empty and inside the composition it was made from *)
+Definition ps_ok (p : phrase_sel) : Prop := ps_begin p < ps_end p /\ ps_end p <= clen (ps_com p).
+
+(* the current page lies inside the candidate list (first page when the list is empty) *)
+Definition page_ok (s : shared') (pg : nat) (sel : selector) : Prop :=
+  1 <= o_per_page (opts s) -> forall c, candidates dops sops s sel = Ok c -> pg = 0 \/ pg * o_per_page (opts s) < length c.
+
+(* ... and that composition is the editor's current one: the buffer does not change while a list is open *)
+Definition sel_inv (s : shared') (sel : selector) : Prop :=
+  match sel with SelPhrase p => ps_ok p /\ ps_com p = inner (com s) | _ => True end.
+Definition state_inv (s : shared') (st : estate) : Prop :=
+  match st with Selecting pg _ sel => sel_inv s sel /\ page_ok s pg sel | _ => True end.
 
 Record SInv (s : shared') : Prop := { si_com : wf_ce (com s); si_dict : dict_ok (dict s) }.
-Record Inv (e : editor') : Prop := { inv_sh : SInv (sh e); inv_st : state_inv (st e) }.
+Record Inv (e : editor') : Prop := { inv_sh : SInv (sh e); inv_st : state_inv (sh e) (st e) }.
+
+(* what the candidate list and its paging read of the shared state *)
+Definition same_view (a b : shared') : Prop :=
+  dict a = dict b /\ syl a = syl b /\ o_per_page (opts a) = o_per_page (opts b) /\ inner (com a) = inner (com b).
+
+Lemma candidates_view a b sel : dict a = dict b -> syl a = syl b -> candidates dops sops a sel = candidates dops sops b sel.
+Proof. intros Hd Hs. destruct sel; unfold candidates; rewrite ?Hd, ?Hs; reflexivity. Qed.
+
+Lemma page_ok_view a b pg sel : same_view a b -> page_ok a pg sel -> page_ok b pg sel.
+Proof.
+  intros (Hd & Hs & Hp & _) H Hper c Hc. rewrite <- Hp in *. rewrite <- (candidates_view a b sel Hd Hs) in Hc. now apply H.
+Qed.
+
+Lemma sel_inv_view a b sel : inner (com a) = inner (com b) -> sel_inv a sel -> sel_inv b sel.
+Proof. intros Hc. destruct sel; cbn; [|trivial|trivial]. intros (Hok & Hcom). split; [assumption | congruence]. Qed.
+
+Lemma state_inv_view a b st : same_view a b -> state_inv a st -> state_inv b st.
+Proof.
+  intros V. destruct st; cbn; trivial. intros (Hs & Hp).
+  split; [eapply sel_inv_view; [apply V | exact Hs] | eapply page_ok_view; eassumption].
+Qed.
+
+Lemma page_ok_zero s sel : page_ok s 0 sel.
+Proof. intros _ c _. now left. Qed.
+
+Lemma div_ceil_ok a b n : div_ceil a b = Ok n -> 0 < b /\ n = pages_of a b.
+Proof.
+  unfold div_ceil. destruct (Nat.eqb b 0) eqn:E; [discriminate|]. apply Nat.eqb_neq in E.
+  intros H. inversion H. split; [lia | reflexivity].
+Qed.
 
 (* ---- outcome plumbing ---- *)
 Lemma obind_ok {A B} (r : outcome A) (f : A -> outcome B) b :
@@ -183,40 +224,42 @@ Proof.
   exfalso. apply (has_phrase_nonempty _ _ _ Hd H). now apply slice_nil_iff.
 Qed.
 
-Lemma ps_shrink_inv d fuel : forall p p', dict_ok d -> ps_shrink dops d fuel p = Ok p' -> ps_begin p' < ps_end p'.
+Lemma ps_shrink_inv d fuel : forall p p', dict_ok d -> ps_shrink dops d fuel p = Ok p' ->
+  ps_ok p' /\ ps_com p' = ps_com p.
 Proof.
   induction fuel as [|k IH]; intros p p' Hd H; cbn [ps_shrink] in H; [discriminate|].
   destruct (Nat.ltb (ps_end p) (ps_begin p)); [discriminate|].
-  destruct (Nat.ltb (clen (ps_com p)) (ps_end p)); [discriminate|].
+  destruct (Nat.ltb (clen (ps_com p)) (ps_end p)) eqn:Ele; [discriminate|]. apply Nat.ltb_ge in Ele.
   destruct (has_phrase dops d (ps_fuzzy p) _) eqn:Eh.
-  - inv_ok H. eapply range_has_lt; eassumption.
+  - inv_ok H. split; [split; [eapply range_has_lt; eassumption | assumption] | reflexivity].
   - destruct (ps_fwd p).
-    + destruct (Nat.eqb (ps_end p) 0); [discriminate|]. eapply IH; eassumption.
-    + eapply IH; eassumption.
+    + destruct (Nat.eqb (ps_end p) 0); [discriminate|]. now destruct (IH _ _ Hd H).
+    + now destruct (IH _ _ Hd H).
 Qed.
 
-Lemma ps_init_inv d p cur p' : dict_ok d -> ps_init dops d p cur = Ok p' -> ps_begin p' < ps_end p'.
+Lemma ps_init_inv d p cur p' : dict_ok d -> ps_init dops d p cur = Ok p' -> ps_ok p' /\ ps_com p' = ps_com p.
 Proof.
   intros Hd H. unfold ps_init in H. destruct (ps_fwd p).
-  - destruct (_ && _); [discriminate|]. eapply ps_shrink_inv; eassumption.
-  - eapply ps_shrink_inv; eassumption.
+  - destruct (_ && _); [discriminate|]. now destruct (ps_shrink_inv _ _ _ _ Hd H).
+  - now destruct (ps_shrink_inv _ _ _ _ Hd H).
 Qed.
 
-Lemma ps_init_single_word_inv p cur p' : ps_init_single_word p cur = Ok p' -> ps_begin p' < ps_end p'.
+Lemma ps_init_single_word_inv p cur p' : ps_init_single_word p cur = Ok p' -> ps_ok p' /\ ps_com p' = ps_com p.
 Proof.
   unfold ps_init_single_word. destruct (Nat.eqb (Nat.min cur (clen (ps_com p))) 0) eqn:E; [discriminate|].
-  intros H. inv_ok H. cbn [ps_begin ps_end]. apply Nat.eqb_neq in E. lia.
+  intros H. inv_ok H. unfold ps_ok. cbn [ps_begin ps_end ps_com]. apply Nat.eqb_neq in E. split; [lia | reflexivity].
 Qed.
 
-Lemma ps_range_has_lt d p b e : dict_ok d -> ps_range_has dops d p b e = Ok true -> b < e.
+Lemma ps_range_has_lt d p b e : dict_ok d -> ps_range_has dops d p b e = Ok true -> b < e /\ e <= clen (ps_com p).
 Proof.
   intros Hd H. unfold ps_range_has in H.
-  destruct (Nat.ltb e b); [discriminate|]. destruct (Nat.ltb (clen (ps_com p)) e); [discriminate|].
-  inv_ok H. eapply range_has_lt; eassumption.
+  destruct (Nat.ltb e b); [discriminate|].
+  destruct (Nat.ltb (clen (ps_com p)) e) eqn:Ele; [discriminate|]. apply Nat.ltb_ge in Ele.
+  inv_ok H. split; [eapply range_has_lt; eassumption | assumption].
 Qed.
 
 Lemma ps_next_point_inv d fuel : forall p b e b' e', dict_ok d ->
-  ps_next_point dops d fuel p b e = Ok (Some (b', e')) -> b' < e'.
+  ps_next_point dops d fuel p b e = Ok (Some (b', e')) -> b' < e' /\ e' <= clen (ps_com p).
 Proof.
   induction fuel as [|k IH]; intros p b e b' e' Hd H; cbn [ps_next_point] in H; [discriminate|].
   destruct (if ps_fwd p then (b, e - 1, Nat.eqb e 0) else (S b, e, false)) as [[b1 e1] stop].
@@ -227,7 +270,7 @@ Proof.
 Qed.
 
 Lemma ps_prev_point_inv d fuel : forall p b e b' e', dict_ok d ->
-  ps_prev_point dops d fuel p b e = Ok (Some (b', e')) -> b' < e'.
+  ps_prev_point dops d fuel p b e = Ok (Some (b', e')) -> b' < e' /\ e' <= clen (ps_com p).
 Proof.
   induction fuel as [|k IH]; intros p b e b' e' Hd H; cbn [ps_prev_point] in H; [discriminate|].
   destruct (ps_fwd p).
@@ -243,56 +286,91 @@ Proof.
     + eapply IH; eassumption.
 Qed.
 
-Lemma ps_cycle_inv d fuel : forall p p', dict_ok d -> ps_cycle dops d fuel p = Ok p' -> ps_begin p' < ps_end p'.
+Lemma ps_cycle_inv d fuel : forall p p', dict_ok d -> ps_cycle dops d fuel p = Ok p' -> ps_ok p' /\ ps_com p' = ps_com p.
 Proof.
   induction fuel as [|k IH]; intros p p' Hd H; cbn [ps_cycle] in H; [discriminate|].
   match type of H with context[match ?r with Ok _ => _ | Err _ => _ | Panic _ => _ | OutOfFuel => _ end] =>
     destruct r as [[b e]| | |] eqn:Er end; try discriminate.
   destruct (ps_range_has dops d p b e) as [[|]| | |] eqn:Eh; try discriminate.
-  - inv_ok H. cbn [ps_with_range ps_begin ps_end]. eapply ps_range_has_lt; eassumption.
-  - eapply IH; eassumption.
+  - inv_ok H. unfold ps_ok. cbn [ps_with_range ps_begin ps_end ps_com]. split; [eapply ps_range_has_lt; eassumption | reflexivity].
+  - destruct (IH _ _ Hd H) as (Hok & Hc). split; [exact Hok | exact Hc].
 Qed.
 
-Lemma ps_jump_last_inv d fuel : forall p p', dict_ok d -> ps_begin p < ps_end p ->
-  ps_jump_last dops d fuel p = Ok p' -> ps_begin p' < ps_end p'.
+Lemma ps_jump_last_inv d fuel : forall p p', dict_ok d -> ps_ok p ->
+  ps_jump_last dops d fuel p = Ok p' -> ps_ok p' /\ ps_com p' = ps_com p.
 Proof.
   induction fuel as [|k IH]; intros p p' Hd Hp H; cbn [ps_jump_last] in H; [discriminate|].
   destruct (ps_next_selection_point dops d p) as [[[b e]|]| | |] eqn:En; try discriminate.
-  - eapply IH; [assumption | | exact H]. cbn [ps_with_range ps_begin ps_end].
-    unfold ps_next_selection_point in En. eapply ps_next_point_inv; eassumption.
-  - now inv_ok H.
+  - assert (Hq : ps_ok (ps_with_range p b e)).
+    { unfold ps_ok. cbn [ps_with_range ps_begin ps_end ps_com].
+      unfold ps_next_selection_point in En. eapply ps_next_point_inv; eassumption. }
+    destruct (IH _ _ Hd Hq H) as (Hok & Hc). split; [exact Hok | exact Hc].
+  - inv_ok H. split; [assumption | reflexivity].
+Qed.
+
+(* ---- paging ---- *)
+Lemma total_page_ok s sel tp : total_page dops sops s sel = Ok tp ->
+  exists c, candidates dops sops s sel = Ok c /\ 0 < o_per_page (opts s) /\ tp = pages_of (length c) (o_per_page (opts s)).
+Proof.
+  unfold total_page. intros H. bind_ok H c Hc. apply div_ceil_ok in H as (Hp & ->). eauto.
+Qed.
+
+(* every page index below the page count is in range ... *)
+Lemma total_page_lt s sel tp k : total_page dops sops s sel = Ok tp -> k < tp -> page_ok s k sel.
+Proof.
+  intros H Hk _ c Hc. apply total_page_ok in H as (c' & Hc' & Hp & ->). rewrite Hc in Hc'. inv_ok Hc'.
+  right. now apply page_index_valid.
+Qed.
+
+(* ... and so is the last page (page 0 of an empty list) *)
+Lemma total_page_last s sel tp : total_page dops sops s sel = Ok tp -> page_ok s (tp - 1) sel.
+Proof.
+  intros H. destruct tp as [|tp]; [apply page_ok_zero|]. eapply total_page_lt; [exact H | lia].
+Qed.
+
+Lemma page_ok_pred s pg sel : page_ok s pg sel -> page_ok s (pg - 1) sel.
+Proof.
+  intros H Hp c Hc. destruct (H Hp c Hc) as [->|Hlt]; [now left|]. right.
+  assert ((pg - 1) * o_per_page (opts s) <= pg * o_per_page (opts s)) by (apply Nat.mul_le_mono_r; lia). lia.
 Qed.
 
 (* ---- entering the Selecting state ---- *)
 Lemma new_phrase_selecting_inv s s' st' : SInv s -> new_phrase_selecting dops s = Ok (s', st') ->
-  SInv s' /\ state_inv st'.
+  SInv s' /\ state_inv s' st'.
 Proof.
   intros [W Dk] H. unfold new_phrase_selecting in H. bind_ok H p Hp. inv_ok H. split.
   - constructor; cbn; [|assumption]. apply ce_clamp_cursor_wf, ce_push_cursor_wf, W.
-  - cbn. eapply ps_init_inv; eassumption.
+  - destruct (ps_init_inv _ _ _ _ Dk Hp) as (Hok & Hc). cbn [state_inv sel_inv]. split; [|apply page_ok_zero].
+    split; [exact Hok|]. rewrite Hc. reflexivity.
 Qed.
 
 Lemma new_phrase_selecting_simple_inv s s' st' : SInv s -> new_phrase_selecting_simple s = Ok (s', st') ->
-  SInv s' /\ state_inv st'.
+  SInv s' /\ state_inv s' st'.
 Proof.
   intros [W Dk] H. unfold new_phrase_selecting_simple in H. bind_ok H p Hp. inv_ok H. split.
   - constructor; cbn; [|assumption]. apply ce_push_cursor_wf, W.
-  - cbn. eapply ps_init_single_word_inv; eassumption.
+  - destruct (ps_init_single_word_inv _ _ _ Hp) as (Hok & Hc). cbn [state_inv sel_inv]. split; [|apply page_ok_zero].
+    split; [exact Hok|]. rewrite Hc. reflexivity.
 Qed.
 
 Lemma new_special_selecting_inv s sym s' st' : SInv s -> new_special_selecting s sym = Ok (s', st') ->
-  SInv s' /\ state_inv st'.
+  SInv s' /\ state_inv s' st'.
 Proof.
   intros [W Dk] H. unfold new_special_selecting in H. bind_ok H m Hm.
   assert (K : wf_ce (ce_clamp_cursor (ce_push_cursor (com s)))) by (apply ce_clamp_cursor_wf, ce_push_cursor_wf, W).
-  destruct m; inv_ok H; (split; [constructor; cbn; assumption | exact I]).
+  destruct m; inv_ok H; (split; [constructor; cbn; assumption | cbn [state_inv sel_inv]; split; [exact I | apply page_ok_zero]]).
 Qed.
 
-Definition trans_inv (t : transition) : Prop := match t with ToState st => state_inv st | Spin _ => True end.
+Definition trans_inv (s : shared') (t : transition) : Prop := match t with ToState st => state_inv s st | Spin _ => True end.
+
+(* goals that are True up to unfolding, or the first page of a symbol list *)
+Ltac triv_t :=
+  cbn [trans_inv state_inv sel_inv new_symbol_selecting];
+  first [exact Logic.I | split; [exact Logic.I | apply page_ok_zero]].
 
 Lemma start_selecting_common_inv s f s' t : SInv s ->
-  (forall s0, SInv s0 -> SInv (fst (f s0)) /\ trans_inv (snd (f s0))) ->
-  start_selecting_common dops s f = Ok (s', t) -> SInv s' /\ trans_inv t.
+  (forall s0, SInv s0 -> SInv (fst (f s0)) /\ trans_inv (fst (f s0)) (snd (f s0))) ->
+  start_selecting_common dops s f = Ok (s', t) -> SInv s' /\ trans_inv s' t.
 Proof.
   intros I Hf H. unfold start_selecting_common in H.
   destruct (ce_symbol_for_select (com s)) as [sym|].
@@ -325,52 +403,52 @@ Proof.
   intros I Hr H. apply with_com_ok in H as (c & Hc & ->). apply SInv_set_com; auto.
 Qed.
 
-Lemma entering_default_inv s ev s' t : SInv s -> entering_default sops s ev = Ok (s', t) -> SInv s' /\ trans_inv t.
+Lemma entering_default_inv s ev s' t : SInv s -> entering_default sops s ev = Ok (s', t) -> SInv s' /\ trans_inv s' t.
 Proof.
   intros I H. unfold entering_default in H.
-  assert (CI : forall s0 ch s1 t1, SInv s0 -> commit_or_insert s0 ch = Ok (s1, t1) -> SInv s1 /\ trans_inv t1).
+  assert (CI : forall s0 ch s1 t1, SInv s0 -> commit_or_insert s0 ch = Ok (s1, t1) -> SInv s1 /\ trans_inv s1 t1).
   { intros s0 ch s1 t1 I0 H0. split; [eapply commit_or_insert_inv; eassumption|].
-    unfold commit_or_insert in H0. destruct (ce_is_empty (com s0)); [now inv_ok H0|].
-    bind_ok H0 x Hx. now inv_ok H0. }
+    unfold commit_or_insert in H0. destruct (ce_is_empty (com s0)); [inv_ok H0; triv_t|].
+    bind_ok H0 x Hx. inv_ok H0. triv_t. }
   assert (INS : forall s0 x s1, SInv s0 -> with_com s0 (ce_insert (com s0) x) = Ok s1 -> SInv s1).
   { intros s0 x s1 I0 H0. eapply with_com_inv; [exact I0| |exact H0].
     intros c Hc. destruct I0 as [W0 _]. now destruct (ce_insert_spec _ _ _ W0 Hc). }
   destruct (negb (o_english (opts s))).
-  - destruct (N.eqb (kcode ev) kc_Grave && mods_none ev); [inv_ok H; split; [assumption | exact Logic.I]|].
+  - destruct (N.eqb (kcode ev) kc_Grave && mods_none ev); [inv_ok H; split; [assumption | triv_t]|].
     destruct (N.eqb (kcode ev) kc_Space).
     { destruct (negb (o_fullwidth (opts s))); [eapply CI; eassumption|].
       destruct (full_width_symbol_input (kunicode ev)); [eapply CI; eassumption | discriminate]. }
     destruct (o_easy_symbol (opts s)).
     { destruct (assoc (kunicode ev) (abbr s)).
-      - bind_ok H c Hc. inv_ok H. split; [|exact Logic.I].
+      - bind_ok H c Hc. inv_ok H. split; [|triv_t].
         apply SInv_set_com; [assumption|]. destruct I as [W _]. eapply insert_chars_wf; eassumption.
       - destruct (special_symbol_input (kunicode ev)).
-        + bind_ok H s1 H1. inv_ok H. split; [eapply INS; eassumption | exact Logic.I].
+        + bind_ok H s1 H1. inv_ok H. split; [eapply INS; eassumption | triv_t].
         + destruct (mods_none ev).
           * destruct (so_key_press sops (syl s) ev) as [sy kb].
-            destruct kb; inv_ok H; (split; [sinv | exact Logic.I]).
-          * inv_ok H. split; [assumption | exact Logic.I]. }
+            destruct kb; inv_ok H; (split; [sinv | triv_t]).
+          * inv_ok H. split; [assumption | triv_t]. }
     set (pressed := if mods_none ev then Some (so_key_press sops (syl s) ev) else None) in *.
     destruct pressed as [[sy kb]|].
     + assert (I0 : SInv (set_syl s sy)) by sinv.
-      destruct kb; try (inv_ok H; split; [assumption | exact Logic.I]);
+      destruct kb; try (inv_ok H; split; [assumption | triv_t]);
       (destruct (special_symbol_input (kunicode ev));
-       [bind_ok H s1 H1; inv_ok H; split; [eapply INS; eassumption | exact Logic.I]|];
-       destruct (is_printable ev); [|inv_ok H; split; [assumption | exact Logic.I]];
+       [bind_ok H s1 H1; inv_ok H; split; [eapply INS; eassumption | triv_t]|];
+       destruct (is_printable ev); [|inv_ok H; split; [assumption | triv_t]];
        destruct (negb (o_fullwidth (opts s))); [eapply CI; eassumption|];
        destruct (full_width_symbol_input (kunicode ev)); [eapply CI; eassumption | discriminate]).
     + destruct (special_symbol_input (kunicode ev));
-       [bind_ok H s1 H1; inv_ok H; split; [eapply INS; eassumption | exact Logic.I]|].
-      destruct (is_printable ev); [|inv_ok H; split; [assumption | exact Logic.I]].
+       [bind_ok H s1 H1; inv_ok H; split; [eapply INS; eassumption | triv_t]|].
+      destruct (is_printable ev); [|inv_ok H; split; [assumption | triv_t]].
       destruct (negb (o_fullwidth (opts s))); [eapply CI; eassumption|].
       destruct (full_width_symbol_input (kunicode ev)); [eapply CI; eassumption | discriminate].
   - destruct (negb (o_fullwidth (opts s))); [eapply CI; eassumption|].
     destruct (full_width_symbol_input (kunicode ev)); [eapply CI; eassumption | discriminate].
 Qed.
 
-Ltac done_spin H := inv_ok H; split; [first [assumption | sinv] | exact Logic.I].
+Ltac done_spin H := inv_ok H; split; [first [assumption | sinv] | triv_t].
 
-Lemma entering_next_inv s ev s' t : SInv s -> entering_next dops sops conv s ev = Ok (s', t) -> SInv s' /\ trans_inv t.
+Lemma entering_next_inv s ev s' t : SInv s -> entering_next dops sops conv s ev = Ok (s', t) -> SInv s' /\ trans_inv s' t.
 Proof.
   intros I H. unfold entering_next in H.
   assert (WC : forall (f : comp_editor -> outcome comp_editor) s1,
@@ -380,24 +458,24 @@ Proof.
   assert (LR : forall a b r, learn_in_range dops conv s a b = Ok r -> SInv (fst r)).
   { intros a b [s1 ok] Hr. cbn. now destruct (learn_in_range_inv _ _ _ _ _ I Hr). }
   split_if H.
-  { split_if H; [done_spin H|]. bind_ok H s1 H1. inv_ok H. split; [|exact Logic.I].
+  { split_if H; [done_spin H|]. bind_ok H s1 H1. inv_ok H. split; [|triv_t].
     eapply WC; [|exact H1]. intros c c' W Hc. now destruct (ce_remove_before_spec _ _ W Hc). }
   split_if H; [done_spin H|].
   split_if H.
   { split_if H; [done_spin H|].
     split_if H.
-    - bind_ok H r Hr. inv_ok H. split; [eapply LR; eassumption | exact Logic.I].
+    - bind_ok H r Hr. inv_ok H. split; [eapply LR; eassumption | triv_t].
     - split_if H.
-      + bind_ok H r Hr. inv_ok H. split; [eapply LR; eassumption | exact Logic.I].
+      + bind_ok H r Hr. inv_ok H. split; [eapply LR; eassumption | triv_t].
       + done_spin H. }
   split_if H; [done_spin H|].
   split_if H.
   { split_if H; [done_spin H|].
-    split_if H; bind_ok H s1 H1; inv_ok H; (split; [|exact Logic.I]); (eapply WC; [|exact H1]); intros c c' W Hc.
+    split_if H; bind_ok H s1 H1; inv_ok H; (split; [|triv_t]); (eapply WC; [|exact H1]); intros c c' W Hc.
     - now destruct (ce_set_gap_wf c ce_insert_glue c' (or_introl eq_refl) W Hc).
     - now destruct (ce_set_gap_wf c ce_insert_break c' (or_intror eq_refl) W Hc). }
   split_if H.
-  { split_if H; [done_spin H|]. bind_ok H s1 H1. inv_ok H. split; [|exact Logic.I].
+  { split_if H; [done_spin H|]. bind_ok H s1 H1. inv_ok H. split; [|triv_t].
     eapply WC; [|exact H1]. intros c c' W Hc. now destruct (ce_remove_after_spec _ _ W Hc). }
   split_if H; [done_spin H|].
   split_if H; [split_if H; done_spin H|].
@@ -408,22 +486,22 @@ Proof.
   split_if H; [done_spin H|].
   split_if H.
   { eapply start_selecting_common_inv; [exact I| |exact H].
-    intros s0 I0. cbv beta. destruct (ce_is_empty (com s0)); cbn [fst snd trans_inv]; (split; [first [assumption | sinv] | exact Logic.I]). }
+    intros s0 I0. cbv beta. destruct (ce_is_empty (com s0)); cbn [fst snd trans_inv]; (split; [first [assumption | sinv] | triv_t]). }
   split_if H.
   { eapply start_selecting_common_inv; [exact I| |exact H].
-    intros s0 I0. cbv beta. cbn [fst snd trans_inv]. split; [assumption | exact Logic.I]. }
+    intros s0 I0. cbv beta. cbn [fst snd trans_inv]. split; [assumption | triv_t]. }
   split_if H; [done_spin H|].
   split_if H.
-  { bind_ok H s1 H1. inv_ok H. split; [|exact Logic.I]. now destruct (commit_inv _ _ I H1). }
+  { bind_ok H s1 H1. inv_ok H. split; [|triv_t]. now destruct (commit_inv _ _ I H1). }
   split_if H; [split_if H; done_spin H|].
   split_if H.
   { split; [eapply commit_or_insert_inv; eassumption|].
-    unfold commit_or_insert in H. destruct (ce_is_empty (com s)); [now inv_ok H|]. bind_ok H x Hx. now inv_ok H. }
+    unfold commit_or_insert in H. destruct (ce_is_empty (com s)); [inv_ok H; triv_t|]. bind_ok H x Hx. inv_ok H. triv_t. }
   eapply entering_default_inv; eassumption.
 Qed.
 
 Lemma entering_syllable_next_inv s ev s' t : SInv s ->
-  entering_syllable_next dops sops s ev = Ok (s', t) -> SInv s' /\ trans_inv t.
+  entering_syllable_next dops sops s ev = Ok (s', t) -> SInv s' /\ trans_inv s' t.
 Proof.
   intros I H. unfold entering_syllable_next in H.
   split_if H; [split_if H; done_spin H|].
@@ -445,7 +523,7 @@ Proof.
     + done_spin H.
   - (* Fuzzy *)
     split_if H; [|done_spin H].
-    bind_ok H s2 H2. inv_ok H. split; [eapply INS; eassumption | exact Logic.I].
+    bind_ok H s2 H2. inv_ok H. split; [eapply INS; eassumption | triv_t].
 Qed.
 
 Lemma ce_insert_or_replace_wf (b : bool) c sym c' : wf_ce c ->
@@ -454,85 +532,104 @@ Proof.
   intros W H. destruct b; [now destruct (ce_insert_spec _ _ _ W H) | now destruct (ce_replace_spec _ _ _ W H)].
 Qed.
 
-Lemma selecting_select_offset_inv s pg act sel n s' t pg' sel' : SInv s -> sel_inv sel ->
-  selecting_select_offset dops sops s pg act sel n = Ok (s', t, pg', sel') -> SInv s' /\ trans_inv t /\ sel_inv sel'.
+(* what a step inside the Selecting state guarantees: the shared state stays well-formed, a new
+   state is a good one, and when the editor stays in the list the (possibly new) selector and
+   page are good for the new shared state *)
+Definition stay_inv (s' : shared') (t : transition) (pg' : nat) (sel' : selector) : Prop :=
+  match t with Spin _ => sel_inv s' sel' /\ page_ok s' pg' sel' | ToState _ => True end.
+
+Lemma selecting_select_offset_inv s pg act sel n s' t pg' sel' : SInv s -> sel_inv s sel -> page_ok s pg sel ->
+  selecting_select_offset dops sops s pg act sel n = Ok (s', t, pg', sel') ->
+  SInv s' /\ trans_inv s' t /\ stay_inv s' t pg' sel'.
 Proof.
-  intros I Hsel H. unfold selecting_select_offset in H. destruct sel as [p|y|sym0].
+  intros I Hsel Hpg H. unfold selecting_select_offset in H. destruct sel as [p|y|sym0].
   - bind_ok H cands Hc. destruct (nth_error cands _) as [text|].
-    + bind_ok H c1 H1. inv_ok H. split; [|split; [exact Logic.I | exact Hsel]].
-      destruct I as [W Dk]. cbn in Hsel.
-      destruct (ce_select_spec _ (mkIv (ps_begin p) (ps_end p) true text) _ W Hsel H1) as (W1 & _).
+    + bind_ok H c1 H1. inv_ok H. split; [|split; exact Logic.I].
+      destruct I as [W Dk]. destruct Hsel as ((Hlt & Hle) & Hcom).
+      destruct (ce_select_spec _ (mkIv (ps_begin p) (ps_end p) true text) _ W Hlt H1) as (W1 & _).
       constructor; cbn; [|assumption].
       destruct (o_auto_shift (opts s)); [apply ce_right_wf|]; apply ce_pop_cursor_wf; assumption.
-    + inv_ok H. split; [assumption | split; [exact Logic.I | exact Hsel]].
-  - destruct (Nat.leb _ _); [inv_ok H; split; [assumption | split; exact Logic.I]|].
+    + inv_ok H. split; [assumption | split; [exact Logic.I | split; assumption]].
+  - destruct (Nat.leb _ _); [inv_ok H; split; [assumption | split; [exact Logic.I | split; assumption]]|].
     bind_ok H r Hr. destruct r as [y' res]. destruct res as [sym|].
     + bind_ok H c1 H1. inv_ok H. split; [|split; exact Logic.I].
       destruct I as [W Dk]. constructor; cbn; [|assumption].
       apply ce_pop_cursor_wf. eapply ce_insert_or_replace_wf; eassumption.
-    + inv_ok H. split; [assumption | split; exact Logic.I].
-  - bind_ok H m Hm. destruct (Nat.leb _ _); [inv_ok H; split; [assumption | split; exact Logic.I]|].
+    + inv_ok H. split; [assumption | split; [exact Logic.I | split; [exact Logic.I | apply page_ok_zero]]].
+  - bind_ok H m Hm. destruct (Nat.leb _ _); [inv_ok H; split; [assumption | split; [exact Logic.I | split; assumption]]|].
     bind_ok H res Hr. destruct res as [sym|].
     + bind_ok H c1 H1. inv_ok H. split; [|split; exact Logic.I].
       destruct I as [W Dk]. constructor; cbn; [|assumption].
       apply ce_pop_cursor_wf. eapply ce_insert_or_replace_wf; eassumption.
-    + inv_ok H. split; [assumption | split; exact Logic.I].
+    + inv_ok H. split; [assumption | split; [exact Logic.I | split; [exact Logic.I | apply page_ok_zero]]].
 Qed.
 
-Lemma selecting_select_inv s pg act sel n s' t pg' sel' : SInv s -> sel_inv sel ->
-  selecting_select dops sops s pg act sel n = Ok (s', t, pg', sel') -> SInv s' /\ trans_inv t /\ sel_inv sel'.
+Lemma selecting_select_inv s pg act sel n s' t pg' sel' : SInv s -> sel_inv s sel -> page_ok s pg sel ->
+  selecting_select dops sops s pg act sel n = Ok (s', t, pg', sel') ->
+  SInv s' /\ trans_inv s' t /\ stay_inv s' t pg' sel'.
 Proof. unfold selecting_select. apply selecting_select_offset_inv. Qed.
 
-Lemma reselect_at_cursor_inv s sel : SInv s -> reselect_at_cursor dops s = Ok sel -> sel_inv sel.
+Lemma reselect_at_cursor_inv s sel : SInv s -> reselect_at_cursor dops s = Ok sel -> sel_inv s sel.
 Proof.
   intros [W Dk] H. unfold reselect_at_cursor in H. destruct (ce_symbol (com s)) as [sym|]; [|discriminate].
   destruct (is_syllable sym).
-  - bind_ok H p Hp. inv_ok H. cbn. eapply ps_init_inv; eassumption.
+  - bind_ok H p Hp. inv_ok H. cbn. destruct (ps_init_inv _ _ _ _ Dk Hp) as (Hok & Hc). split; [exact Hok | now rewrite Hc].
   - inv_ok H. exact Logic.I.
 Qed.
 
-Ltac fin3 := split; [first [assumption | sinv] | split; [exact Logic.I | first [assumption | exact Logic.I]]].
+(* stay in the list with the same shared state, selector and (given) page *)
+Ltac fin_stay := split; [first [assumption | sinv] | split; [exact Logic.I | split; first [assumption | apply page_ok_zero]]].
+(* leave the list *)
+Ltac fin_leave := split; [first [assumption | sinv] | split; exact Logic.I].
 
-Lemma selecting_next_inv s ev pg act sel s' t pg' sel' : SInv s -> sel_inv sel ->
-  selecting_next dops sops s ev pg act sel = Ok (s', t, pg', sel') -> SInv s' /\ trans_inv t /\ sel_inv sel'.
+Lemma selecting_next_inv s ev pg act sel s' t pg' sel' : SInv s -> sel_inv s sel -> page_ok s pg sel ->
+  selecting_next dops sops s ev pg act sel = Ok (s', t, pg', sel') ->
+  SInv s' /\ trans_inv s' t /\ stay_inv s' t pg' sel'.
 Proof.
-  intros I Hsel H. unfold selecting_next in H. cbv zeta in H.
+  intros I Hsel Hpg H. unfold selecting_next in H. cbv zeta in H.
   assert (CS : SInv (cancel_selecting s)) by (unfold cancel_selecting; sinv).
   assert (CSL : SInv (cancel_selecting (switch_language s))) by (unfold cancel_selecting, switch_language; sinv).
-  split_if H; [inv_ok H; fin3|].
-  split_if H; [inv_ok H; split; [assumption | split; [exact Logic.I | assumption]]|].
-  split_if H; [inv_ok H; split; [assumption | split; [exact Logic.I | assumption]]|].
-  split_if H; [inv_ok H; split; [assumption | split; [exact Logic.I | assumption]]|].
+  split_if H; [inv_ok H; fin_stay|].
+  split_if H; [inv_ok H; fin_leave|].
+  split_if H; [inv_ok H; fin_leave|].
+  split_if H; [inv_ok H; fin_leave|].
   split_if H.
-  { bind_ok H tp Htp. split_if H; [inv_ok H; fin3|].
+  { bind_ok H tp Htp. split_if H.
+    { inv_ok H. match goal with E : Nat.ltb (S _) _ = true |- _ => apply Nat.ltb_lt in E end. split; [assumption | split; [exact Logic.I | split; [assumption|]]].
+      eapply total_page_lt; eassumption. }
     destruct sel as [p|y|sym0].
     - bind_ok H p' Hp'. inv_ok H. split; [assumption | split; [exact Logic.I|]].
-      cbn. destruct I as [W Dk]. unfold ps_next in Hp'. eapply ps_cycle_inv; eassumption.
-    - inv_ok H. fin3.
-    - inv_ok H. fin3. }
+      destruct I as [W Dk]. unfold ps_next in Hp'. destruct (ps_cycle_inv _ _ _ _ Dk Hp') as (Hok & Hc).
+      destruct Hsel as (_ & Hcom). split; [|apply page_ok_zero]. split; [exact Hok | congruence].
+    - inv_ok H. fin_stay.
+    - inv_ok H. fin_stay. }
   split_if H.
-  { split_if H; [inv_ok H; fin3|].
+  { split_if H; [inv_ok H; fin_stay|].
     bind_ok H sel1 Hs1. inv_ok H.
     assert (I1 : SInv (set_com s (ce_move_cursor (com s) (sel_begin s sel - 1)))) by sinv.
-    split; [exact I1 | split; [exact Logic.I | eapply reselect_at_cursor_inv; eassumption]]. }
+    split; [exact I1 | split; [exact Logic.I | split; [eapply reselect_at_cursor_inv; eassumption | apply page_ok_zero]]]. }
   split_if H.
-  { split_if H; [inv_ok H; fin3|].
+  { split_if H; [inv_ok H; fin_stay|].
     bind_ok H sel1 Hs1. inv_ok H.
     assert (I1 : SInv (set_com s (ce_clamp_cursor (ce_move_cursor (com s) (sel_begin s sel + 1))))) by sinv.
-    split; [exact I1 | split; [exact Logic.I | eapply reselect_at_cursor_inv; eassumption]]. }
+    split; [exact I1 | split; [exact Logic.I | split; [eapply reselect_at_cursor_inv; eassumption | apply page_ok_zero]]]. }
   split_if H.
-  { split_if H; [inv_ok H; fin3|]. bind_ok H tp Htp. inv_ok H. fin3. }
+  { split_if H.
+    - inv_ok H. split; [assumption | split; [exact Logic.I | split; [assumption | now apply page_ok_pred]]].
+    - bind_ok H tp Htp. inv_ok H. split; [assumption | split; [exact Logic.I | split; [assumption | eapply total_page_last; eassumption]]]. }
   split_if H.
-  { bind_ok H tp Htp. split_if H; inv_ok H; fin3. }
-  split_if H; [eapply selecting_select_inv; [exact I | exact Hsel | exact H]|].
+  { bind_ok H tp Htp. split_if H; inv_ok H.
+    - match goal with E : Nat.ltb (S _) _ = true |- _ => apply Nat.ltb_lt in E end. split; [assumption | split; [exact Logic.I | split; [assumption | eapply total_page_lt; eassumption]]].
+    - fin_stay. }
+  split_if H; [eapply selecting_select_inv; [exact I | exact Hsel | exact Hpg | exact H]|].
   split_if H.
-  { inv_ok H. split; [|split; [exact Logic.I | assumption]].
+  { inv_ok H. split; [|split; exact Logic.I].
     destruct CS as [W Dk]. constructor; cbn; [apply ce_pop_cursor_wf; exact W | exact Dk]. }
-  split_if H; inv_ok H; fin3.
+  split_if H; inv_ok H; fin_stay.
 Qed.
 
 Lemma highlighting_next_inv s ev mv s' t mv' : SInv s ->
-  highlighting_next dops conv s ev mv = Ok (s', t, mv') -> SInv s' /\ trans_inv t.
+  highlighting_next dops conv s ev mv = Ok (s', t, mv') -> SInv s' /\ trans_inv s' t.
 Proof.
   intros I H. unfold highlighting_next in H.
   split_if H; [inv_ok H; split; [sinv | exact Logic.I]|].
@@ -547,10 +644,15 @@ Proof.
 Qed.
 
 (* ---- every key event preserves the invariant ---- *)
-Lemma apply_transition_inv s old t s1 st1 : SInv s -> state_inv old -> trans_inv t ->
-  apply_transition s old t = (s1, st1) -> SInv s1 /\ state_inv st1.
+Lemma same_view_set_last s b : same_view s (set_last s b).
+Proof. repeat split. Qed.
+
+Lemma apply_transition_inv s old t s1 st1 : SInv s ->
+  (match t with Spin _ => state_inv s old | ToState _ => True end) -> trans_inv s t ->
+  apply_transition s old t = (s1, st1) -> SInv s1 /\ state_inv s1 st1.
 Proof.
-  intros I Ho Ht H. unfold apply_transition in H. destruct t as [ns|b]; inv_ok H; (split; [sinv | assumption]).
+  intros I Ho Ht H. unfold apply_transition in H. destruct t as [ns|b]; inv_ok H;
+    (split; [sinv | eapply state_inv_view; [apply same_view_set_last | assumption]]).
 Qed.
 
 Theorem process_keyevent_inv e ev e' b : Inv e -> process_keyevent dops sops conv e ev = Ok (e', b) -> Inv e'.
@@ -560,39 +662,64 @@ Proof.
   assert (I0 : SInv s0) by (subst s0; sinv).
   set (s1 := set_commit s0 []) in *.
   assert (I1 : SInv s1) by (subst s1; sinv).
+  assert (V1 : same_view (sh e) s1) by (subst s1 s0; repeat split).
+  pose proof (state_inv_view _ _ _ V1 Ist) as Ist1.
   bind_ok H r Hr. destruct r as [s2 st2].
-  assert (K : SInv s2 /\ state_inv st2).
+  assert (K : SInv s2 /\ state_inv s2 st2).
   { destruct (st e) as [| |pg act sel|mv] eqn:Est.
     - bind_ok Hr r Hr1. destruct r as [sa ta]. cbn [fst snd] in Hr.
       destruct (entering_next_inv _ _ _ _ I1 Hr1) as (Ia & Ta).
-      injection Hr as Hap. exact (apply_transition_inv _ _ _ _ _ Ia (Logic.I : state_inv Entering) Ta Hap).
+      injection Hr as Hap. eapply apply_transition_inv; [exact Ia | | exact Ta | exact Hap]. now destruct ta.
     - bind_ok Hr r Hr1. destruct r as [sa ta]. cbn [fst snd] in Hr.
       destruct (entering_syllable_next_inv _ _ _ _ I1 Hr1) as (Ia & Ta).
-      injection Hr as Hap. exact (apply_transition_inv _ _ _ _ _ Ia (Logic.I : state_inv EnteringSyllable) Ta Hap).
-    - bind_ok Hr r Hr1. destruct r as [[[sa ta] pg'] sel']. cbn in Ist.
-      destruct (selecting_next_inv _ _ _ _ _ _ _ _ _ I1 Ist Hr1) as (Ia & Ta & Sa).
-      injection Hr as Hap. exact (apply_transition_inv _ _ _ _ _ Ia (Sa : state_inv (Selecting pg' act sel')) Ta Hap).
+      injection Hr as Hap. eapply apply_transition_inv; [exact Ia | | exact Ta | exact Hap]. now destruct ta.
+    - bind_ok Hr r Hr1. destruct r as [[[sa ta] pg'] sel']. destruct Ist1 as (Hs1 & Hp1).
+      destruct (selecting_next_inv _ _ _ _ _ _ _ _ _ I1 Hs1 Hp1 Hr1) as (Ia & Ta & Sa).
+      injection Hr as Hap. eapply apply_transition_inv; [exact Ia | | exact Ta | exact Hap].
+      destruct ta; [exact Logic.I | exact Sa].
     - bind_ok Hr r Hr1. destruct r as [[sa ta] mv'].
       destruct (highlighting_next_inv _ _ _ _ _ _ I1 Hr1) as (Ia & Ta).
-      injection Hr as Hap. exact (apply_transition_inv _ _ _ _ _ Ia (Logic.I : state_inv (Highlighting mv')) Ta Hap). }
+      injection Hr as Hap. eapply apply_transition_inv; [exact Ia | | exact Ta | exact Hap]. now destruct ta. }
   destruct K as (I2 & S2).
   bind_ok H s3 H3.
-  assert (I3 : SInv s3).
-  { destruct (is_entering st2 && behavior_eqb (last s2) BAbsorb); [eapply try_auto_commit_inv; eassumption | now inv_ok H3]. }
-  inv_ok H. constructor; cbn [sh st]; [|assumption].
-  unfold flush_dirty. destruct (N.ltb 0 (dirty s3)); [sinv | assumption].
+  assert (K3 : SInv s3 /\ state_inv s3 st2).
+  { destruct (is_entering st2 && behavior_eqb (last s2) BAbsorb) eqn:Een.
+    - split; [eapply try_auto_commit_inv; eassumption|].
+      apply andb_true_iff in Een as (Een & _). destruct st2; try discriminate. exact Logic.I.
+    - inv_ok H3. split; assumption. }
+  destruct K3 as (I3 & S3).
+  inv_ok H. constructor; cbn [sh st].
+  - unfold flush_dirty. destruct (N.ltb 0 (dirty s3)); [sinv | assumption].
+  - eapply state_inv_view; [|exact S3]. unfold flush_dirty. destruct (N.ltb 0 (dirty s3)); repeat split.
 Qed.
 
 (* ---- ... and so does every public operation ---- *)
 Theorem ed_select_inv e n e' b : Inv e -> ed_select dops sops conv e n = Ok (e', b) -> Inv e'.
 Proof.
   intros [Ish Ist] H. unfold ed_select in H. destruct (st e) as [| |pg act sel|mv] eqn:Est; try (inv_ok H; constructor; [assumption | now rewrite Est]).
-  bind_ok H r Hr. destruct r as [[[s2 t] pg'] sel']. cbn in Ist.
-  destruct (selecting_select_offset_inv _ _ _ _ _ _ _ _ _ Ish Ist Hr) as (I2 & T2 & S2).
+  bind_ok H r Hr. destruct r as [[[s2 t] pg'] sel']. destruct Ist as (Hs & Hp).
+  destruct (selecting_select_offset_inv _ _ _ _ _ _ _ _ _ Ish Hs Hp Hr) as (I2 & T2 & S2).
   destruct (apply_transition s2 (Selecting pg' act sel') t) as [s3 st3] eqn:Ea.
-  destruct (apply_transition_inv _ _ _ _ _ I2 (S2 : state_inv (Selecting pg' act sel')) T2 Ea) as (I3 & S3).
-  bind_ok H s4 H4. inv_ok H. constructor; cbn [sh st]; [|assumption].
-  destruct (behavior_eqb (last s3) BAbsorb); [eapply try_auto_commit_inv; eassumption | now inv_ok H4].
+  assert (K3 : SInv s3 /\ state_inv s3 st3).
+  { eapply apply_transition_inv; [exact I2 | | exact T2 | exact Ea]. destruct t; [exact Logic.I | exact S2]. }
+  destruct K3 as (I3 & S3).
+  bind_ok H s4 H4. inv_ok H.
+  destruct (behavior_eqb (last s3) BAbsorb) eqn:Eb.
+  - constructor; cbn [sh st]; [eapply try_auto_commit_inv; eassumption|].
+    (* a choice that was absorbed either left the list (Entering) or stayed with the shared state unchanged *)
+    unfold apply_transition in Ea. destruct t as [ns|bb]; inv_ok Ea.
+    + clear S3. unfold selecting_select_offset in Hr. destruct sel as [p|y|sym0].
+      * bind_ok Hr cands Hc. destruct (nth_error cands n); [bind_ok Hr c1 H1|]; inv_ok Hr. exact Logic.I.
+      * destruct (Nat.leb _ _); [inv_ok Hr|]. bind_ok Hr r Hr1. destruct r as [y' [sym|]]; [bind_ok Hr c1 H1|]; inv_ok Hr. exact Logic.I.
+      * bind_ok Hr m Hm. destruct (Nat.leb _ _); [inv_ok Hr|]. bind_ok Hr r Hr1. destruct r as [sym|]; [bind_ok Hr c1 H1|]; inv_ok Hr. exact Logic.I.
+    + (* Spin: the buffer was not changed, so the automatic commit sees the state the list was opened on *)
+      unfold selecting_select_offset in Hr. destruct sel as [p|y|sym0].
+      * bind_ok Hr cands Hc. destruct (nth_error cands n); [bind_ok Hr c1 H1|]; inv_ok Hr. discriminate.
+      * destruct (Nat.leb _ _); [inv_ok Hr; discriminate|]. bind_ok Hr r Hr1. destruct r as [y' [sym|]]; [bind_ok Hr c1 H1|]; inv_ok Hr.
+        cbn [state_inv sel_inv]. split; [exact Logic.I | apply page_ok_zero].
+      * bind_ok Hr m Hm. destruct (Nat.leb _ _); [inv_ok Hr; discriminate|]. bind_ok Hr r Hr1. destruct r as [sym|]; [bind_ok Hr c1 H1|]; inv_ok Hr.
+        cbn [state_inv sel_inv]. split; [exact Logic.I | apply page_ok_zero].
+  - inv_ok H4. constructor; cbn [sh st]; assumption.
 Qed.
 
 Theorem ed_cancel_selecting_inv e : Inv e -> Inv (fst (ed_cancel_selecting e)).
@@ -604,22 +731,27 @@ Qed.
 Theorem ed_start_selecting_inv e e' b : Inv e -> ed_start_selecting dops sops e = Ok (e', b) -> Inv e'.
 Proof.
   intros [Ish Ist] H. unfold ed_start_selecting in H. bind_ok H r Hr. destruct r as [s1 t1]. cbn [fst snd] in H.
-  assert (K : SInv s1 /\ trans_inv t1).
-  { destruct (st e).
-    - eapply start_selecting_common_inv; [exact Ish| |exact Hr]. intros s0 I0. cbv beta. cbn [fst snd trans_inv]. split; [exact I0 | exact Logic.I].
-    - eapply start_selecting_common_inv; [|  |exact Hr]; [sinv|]. intros s0 I0. cbv beta. cbn [fst snd trans_inv]. split; [exact I0 | exact Logic.I].
-    - inv_ok Hr. split; [assumption | exact Logic.I].
-    - inv_ok Hr. split; [assumption | exact Logic.I]. }
-  destruct K as (I1 & T1).
-  destruct (apply_transition s1 (st e) t1) as [s2 st2] eqn:Ea.
-  destruct (apply_transition_inv _ _ _ _ _ I1 Ist T1 Ea) as (I2 & S2).
-  inv_ok H. constructor; assumption.
+  assert (K : SInv s1 /\ trans_inv s1 t1 /\ (match t1 with Spin _ => state_inv s1 (st e) | ToState _ => True end)).
+  { destruct (st e) as [| |pg act sel|mv] eqn:Est.
+    - destruct (start_selecting_common_inv _ (fun s0 => (s0, Spin BIgnore)) _ _ Ish (fun s0 I0 => conj I0 Logic.I) Hr) as (Ia & Ta).
+      split; [exact Ia | split; [exact Ta | now destruct t1]].
+    - assert (I1 : SInv (set_syl (sh e) (so_clear sops (syl (sh e))))) by sinv.
+      destruct (start_selecting_common_inv _ (fun s0 => (s0, Spin BIgnore)) _ _ I1 (fun s0 I0 => conj I0 Logic.I) Hr) as (Ia & Ta).
+      split; [exact Ia | split; [exact Ta | now destruct t1]].
+    - inv_ok Hr. split; [assumption | split; [exact Logic.I | exact Ist]].
+    - inv_ok Hr. split; [assumption | split; exact Logic.I]. }
+  destruct K as (I1 & T1 & O1).
+  destruct (apply_transition s1 (st e) t1) as [s2 st2] eqn:Ea. inv_ok H.
+  destruct (apply_transition_inv _ _ _ _ _ I1 O1 T1 Ea) as (I2 & S2). constructor; assumption.
 Qed.
 
 Theorem ed_commit_inv e e' b : Inv e -> ed_commit dops conv e = Ok (e', b) -> Inv e'.
 Proof.
-  intros [Ish Ist] H. unfold ed_commit in H. destruct (_ || _); [inv_ok H; constructor; assumption|].
-  bind_ok H s1 H1. inv_ok H. constructor; cbn [sh st]; [|assumption]. now destruct (commit_inv _ _ Ish H1).
+  intros [Ish Ist] H. unfold ed_commit in H.
+  destruct (negb (is_entering (st e)) || ce_is_empty (com (sh e))) eqn:E; [inv_ok H; constructor; assumption|].
+  apply orb_false_iff in E as (E & _). apply negb_false_iff in E.
+  bind_ok H s1 H1. inv_ok H. constructor; cbn [sh st]; [now destruct (commit_inv _ _ Ish H1)|].
+  destruct (st e); try discriminate. exact Logic.I.
 Qed.
 
 Theorem ed_clear_inv e : Inv e -> Inv (ed_clear sops e).
@@ -628,52 +760,77 @@ Proof.
   constructor; cbn; [apply ce_clear_keep_stack_wf | assumption].
 Qed.
 
-Theorem ed_set_options_inv e o : Inv e -> Inv (ed_set_options sops e o).
+(* set_editor_options / learn / unlearn leave the buffer alone; the page is then brought back
+   into range (clamp_page), which re-establishes the page part of the invariant *)
+Lemma clamp_page_inv e e' : SInv (sh e) ->
+  (forall pg act sel, st e = Selecting pg act sel -> sel_inv (sh e) sel) ->
+  (o_per_page (opts (sh e)) = 0 -> state_inv (sh e) (st e)) ->
+  clamp_page dops sops e = Ok e' -> Inv e'.
 Proof.
-  intros [Ish Ist]. unfold ed_set_options. constructor; cbn [sh st]; [|assumption].
-  destruct (negb _); sinv.
+  intros Ish Hsel Hzero H. unfold clamp_page in H.
+  destruct (st e) as [| |pg act sel|mv] eqn:Est; try (inv_ok H; constructor; [assumption | rewrite Est; exact Logic.I]).
+  destruct (Nat.eqb (o_per_page (opts (sh e))) 0) eqn:Ez.
+  - apply Nat.eqb_eq in Ez. injection H as <-. constructor; [assumption | rewrite Est; now apply Hzero].
+  - bind_ok H tp Htp. inv_ok H. constructor; cbn [sh st]; [assumption|]. cbn [state_inv].
+    split; [eapply Hsel; reflexivity|].
+    intros Hp c Hc. pose proof (total_page_last _ _ _ Htp Hp c Hc) as [Hz|Hlt].
+    + left. lia.
+    + destruct (Nat.min_spec pg (tp - 1)) as [(Hmin & ->)|(_ & ->)]; [|now right].
+      right. assert (pg * o_per_page (opts (sh e)) <= (tp - 1) * o_per_page (opts (sh e))) by (apply Nat.mul_le_mono_r; lia). lia.
 Qed.
 
-Theorem ed_learn_inv e k t e' b : Inv e -> ed_learn dops e k t = Ok (e', b) -> Inv e'.
-Proof.
-  intros [Ish Ist] H. unfold ed_learn in H. bind_ok H r Hr. inv_ok H. destruct r as [s1 ok]. cbn [fst].
-  constructor; cbn [sh st]; [|assumption]. now destruct (learn_phrase_inv _ _ _ _ _ Ish Hr).
-Qed.
-
-Theorem ed_unlearn_inv e k t : Inv e -> Inv (ed_unlearn dops e k t).
-Proof.
-  intros [[W Dk] Ist]. constructor; cbn [sh st ed_unlearn]; [|assumption].
-  constructor; cbn; [assumption | now apply ok_remove].
-Qed.
-
-Lemma clamp_page_inv e e' : Inv e -> clamp_page dops sops e = Ok e' -> Inv e'.
-Proof.
-  intros [Ish Ist] H. unfold clamp_page in H.
-  destruct (st e) as [| |pg act sel|mv] eqn:Est; try (inv_ok H; constructor; [assumption | now rewrite Est]).
-  destruct (Nat.eqb _ 0); [inv_ok H; constructor; [assumption | now rewrite Est]|].
-  bind_ok H tp Htp. inv_ok H. constructor; cbn [sh st]; [assumption | exact Ist].
-Qed.
+Lemma ed_set_options_sinv e o : SInv (sh e) -> SInv (sh (ed_set_options sops e o)).
+Proof. intros Ish. unfold ed_set_options. cbn [sh]. destruct (negb _); sinv. Qed.
 
 Theorem ed_set_options_c_inv e o e' : Inv e -> ed_set_options_c dops sops e o = Ok e' -> Inv e'.
-Proof. intros I H. eapply clamp_page_inv; [apply ed_set_options_inv, I | exact H]. Qed.
+Proof.
+  intros [Ish Ist] H. unfold ed_set_options_c in H. eapply clamp_page_inv; [apply ed_set_options_sinv, Ish | | | exact H].
+  - intros pg act sel Hst. unfold ed_set_options in *. cbn [sh st] in *. rewrite Hst in Ist. destruct Ist as (Hs & _).
+    eapply sel_inv_view; [|exact Hs]. destruct (negb _); reflexivity.
+  - intros Hz. unfold ed_set_options in *. cbn [sh st] in *.
+    destruct (st e) as [| |pg act sel|mv]; try exact Logic.I. destruct Ist as (Hs & _). split.
+    + eapply sel_inv_view; [|exact Hs]. destruct (negb _); reflexivity.
+    + intros Hp. exfalso. destruct (negb _); cbn [opts set_opts set_syl] in Hp, Hz; lia.
+Qed.
+
+Theorem ed_learn_inv_s e k t e' b : SInv (sh e) -> ed_learn dops e k t = Ok (e', b) ->
+  SInv (sh e') /\ com (sh e') = com (sh e) /\ opts (sh e') = opts (sh e) /\ st e' = st e.
+Proof.
+  intros Ish H. unfold ed_learn in H. bind_ok H r Hr. inv_ok H. destruct r as [s1 ok]. cbn [fst sh st].
+  destruct (learn_phrase_inv _ _ _ _ _ Ish Hr) as (I1 & Ec & Eo & _). auto.
+Qed.
 
 Theorem ed_learn_c_inv e k t e' b : Inv e -> ed_learn_c dops sops e k t = Ok (e', b) -> Inv e'.
 Proof.
-  intros I H. unfold ed_learn_c in H. bind_ok H r Hr. bind_ok H e1 He1. inv_ok H. destruct r as [e0 b0].
-  eapply clamp_page_inv; [eapply ed_learn_inv; eassumption | exact He1].
+  intros [Ish Ist] H. unfold ed_learn_c in H. bind_ok H r Hr. bind_ok H e1 He1. inv_ok H. destruct r as [e0 b0].
+  destruct (ed_learn_inv_s _ _ _ _ _ Ish Hr) as (I0 & Ec & Eo & Es). cbn [fst] in He1.
+  eapply clamp_page_inv; [exact I0 | | | exact He1].
+  - intros pg act sel Hst. rewrite Es in Hst. rewrite Hst in Ist. destruct Ist as (Hs & _).
+    eapply sel_inv_view; [|exact Hs]. now rewrite Ec.
+  - intros Hz. rewrite Es. destruct (st e) as [| |pg act sel|mv]; try exact Logic.I. destruct Ist as (Hs & _). split.
+    + eapply sel_inv_view; [|exact Hs]. now rewrite Ec.
+    + intros Hp. lia.
 Qed.
 
 Theorem ed_unlearn_c_inv e k t e' : Inv e -> ed_unlearn_c dops sops e k t = Ok e' -> Inv e'.
-Proof. intros I H. eapply clamp_page_inv; [apply ed_unlearn_inv, I | exact H]. Qed.
+Proof.
+  intros [[W Dk] Ist] H. unfold ed_unlearn_c in H. eapply clamp_page_inv; [| | | exact H]; unfold ed_unlearn; cbn [sh st].
+  - constructor; cbn; [assumption | now apply ok_remove].
+  - intros pg act sel Hst. rewrite Hst in Ist. destruct Ist as (Hs & _). exact Hs.
+  - cbn. intros Hz. destruct (st e) as [| |pg act sel|mv]; try exact Logic.I. destruct Ist as (Hs & _). split; [exact Hs|].
+    intros Hp. cbn in Hp. lia.
+Qed.
 
 Lemma with_phrase_sel_inv e f e' b : Inv e ->
-  (forall pg act p p', ps_begin p < ps_end p -> f pg act p = Ok (Some p') -> ps_begin p' < ps_end p') ->
+  (forall pg act p p', ps_ok p -> f pg act p = Ok (Some p') -> ps_ok p' /\ ps_com p' = ps_com p) ->
   with_phrase_sel e f = Ok (e', b) -> Inv e'.
 Proof.
   intros [Ish Ist] Hf H. unfold with_phrase_sel in H.
   destruct (st e) as [| |pg act [p|y|sy]|mv] eqn:Est; try (inv_ok H; constructor; [assumption | now rewrite Est]).
   bind_ok H r Hr. destruct r as [p'|].
-  - inv_ok H. constructor; cbn [sh st]; [assumption|]. cbn. eapply Hf; [exact Ist | exact Hr].
+  - inv_ok H. constructor; cbn [sh st]; [assumption|]. destruct Ist as ((Hok & Hcom) & _).
+    destruct (Hf _ _ _ _ Hok Hr) as (Hok' & Hc'). cbn [state_inv sel_inv].
+    split; [split; [exact Hok' | congruence] | apply page_ok_zero].
   - inv_ok H. constructor; [assumption | now rewrite Est].
 Qed.
 
@@ -683,10 +840,10 @@ Theorem ed_jump_inv e e' b : Inv e ->
 Proof.
   intros I [H|[H|[H|H]]]; (eapply with_phrase_sel_inv; [exact I| |exact H]); intros pg act p p' Hp Hf;
   destruct I as [[W Dk] _].
-  - bind_ok Hf r Hr. destruct r as [[b0 e0]|]; inv_ok Hf. cbn [ps_with_range ps_begin ps_end].
-    unfold ps_next_selection_point in Hr. eapply ps_next_point_inv; eassumption.
-  - bind_ok Hf r Hr. destruct r as [[b0 e0]|]; inv_ok Hf. cbn [ps_with_range ps_begin ps_end].
-    unfold ps_prev_selection_point in Hr. eapply ps_prev_point_inv; eassumption.
+  - bind_ok Hf r Hr. destruct r as [[b0 e0]|]; inv_ok Hf. unfold ps_ok. cbn [ps_with_range ps_begin ps_end ps_com].
+    unfold ps_next_selection_point in Hr. split; [eapply ps_next_point_inv; eassumption | reflexivity].
+  - bind_ok Hf r Hr. destruct r as [[b0 e0]|]; inv_ok Hf. unfold ps_ok. cbn [ps_with_range ps_begin ps_end ps_com].
+    unfold ps_prev_selection_point in Hr. split; [eapply ps_prev_point_inv; eassumption | reflexivity].
   - bind_ok Hf r Hr. inv_ok Hf. eapply ps_init_inv; eassumption.
   - bind_ok Hf r Hr. inv_ok Hf. eapply ps_jump_last_inv; eassumption.
 Qed.
@@ -704,10 +861,19 @@ Proof.
   - apply fst_ok_ok in H as (b & H). eapply ed_start_selecting_inv; eassumption.
   - apply fst_ok_ok in H as (b & H). eapply ed_commit_inv; eassumption.
   - inv_ok H. now apply ed_clear_inv.
-  - inv_ok H. destruct I as [[W Dk] Ist]. constructor; cbn [sh st ed_ack]; [constructor; cbn; assumption | assumption].
+  - inv_ok H. destruct I as [[W Dk] Ist]. constructor; cbn [sh st ed_ack]; [constructor; cbn; assumption|].
+    eapply state_inv_view; [|exact Ist]. repeat split.
   - eapply ed_set_options_c_inv; eassumption.
-  - inv_ok H. destruct I as [[W Dk] Ist]. constructor; cbn [sh st ed_set_engine]; [constructor; cbn; assumption | assumption].
-  - inv_ok H. destruct I as [[W Dk] Ist]. constructor; cbn [sh st ed_clear_syllable_editor]; [constructor; cbn; assumption | assumption].
+  - inv_ok H. destruct I as [[W Dk] Ist]. constructor; cbn [sh st ed_set_engine]; [constructor; cbn; assumption|].
+    eapply state_inv_view; [|exact Ist]. repeat split.
+  - inv_ok H. destruct I as [[W Dk] Ist]. constructor; cbn [sh st ed_clear_syllable_editor]; [constructor; cbn; assumption|].
+    destruct (st e) as [| |pg act sel|mv]; try exact Logic.I. destruct Ist as (Hs & Hp). split.
+    + eapply sel_inv_view; [|exact Hs]. reflexivity.
+    + intros Hper c Hc. apply (Hp Hper c). rewrite <- Hc. destruct sel as [p|y|sy]; cbn [candidates set_syl dict syl]; try reflexivity.
+      destruct (Nat.ltb (ps_end p) (ps_begin p)); [reflexivity|]. destruct (Nat.ltb (clen (ps_com p)) (ps_end p)); [reflexivity|].
+      destruct (Nat.eqb (ps_end p - ps_begin p) 1); [|reflexivity].
+      destruct (slice (symbols (ps_com p)) (ps_begin p) (ps_end p)) as [|[code|ch] [|x l]]; try reflexivity.
+      now rewrite alt_stable.
   - apply fst_ok_ok in H as (b & H). eapply ed_jump_inv; [exact I | left; exact H].
   - apply fst_ok_ok in H as (b & H). eapply ed_jump_inv; [exact I | right; left; exact H].
   - apply fst_ok_ok in H as (b & H). eapply ed_jump_inv; [exact I | right; right; left; exact H].
